@@ -73,6 +73,8 @@ pub struct DrvState {
     /// steps left of the "hot window" behind a delivery: application actions (start an operation, cancel
     /// one) are placed densely between the task polls that process what was delivered
     pub hot_left: u32,
+    /// next letter of the enumerated sequence of external events (Plan::ext_script)
+    pub ext_pos: usize,
 }
 
 pub struct SimDriver {
@@ -107,6 +109,7 @@ impl SimDriver {
                 clock_budget: 3,
                 cancel_budget: 4,
                 hot_left: 0,
+                ext_pos: 0,
             }),
         }
     }
@@ -535,6 +538,48 @@ impl SimDriver {
         }
     }
 
+    /// One letter of Plan::ext_script; skipped when it is not enabled.
+    fn exec_letter(&self, a: crate::plan::ExtAct) {
+        use crate::plan::ExtAct;
+        match a {
+            ExtAct::Go(i) => {
+                let ok = self.w.senders.borrow().get(i).is_some_and(|s| s.waiting && !s.go);
+                if ok {
+                    self.exec(Act::AppGo(i));
+                }
+            }
+            ExtAct::Cancel(i) => {
+                let ok = self.w.senders.borrow().get(i).is_some_and(|s| s.busy && !s.waiting);
+                if ok {
+                    self.st.borrow_mut().cancel_budget = 4;
+                    self.exec(Act::AppCancel(i));
+                }
+            }
+            ExtAct::Ack => {
+                let ok = {
+                    let st = self.st.borrow();
+                    st.peers.first().is_some_and(|p| !p.closed && p.connected && !p.owed.is_empty())
+                };
+                if ok {
+                    self.exec(Act::PeerAck(0, 0));
+                }
+            }
+            ExtAct::StallOn => {
+                let ok = !self.st.borrow().stalled[0];
+                if ok {
+                    self.st.borrow_mut().stall_budget = 4;
+                    self.exec(Act::Stall(0));
+                }
+            }
+            ExtAct::StallOff => {
+                let ok = self.st.borrow().stalled[0];
+                if ok {
+                    self.exec(Act::Unstall(0));
+                }
+            }
+        }
+    }
+
     fn peer_send(&self, peer: &mut Peer, c: usize, pkt: Option<Pkt>, bytes: Vec<u8>, corrupt: Option<String>) {
         let start = peer.sent_total;
         peer.sent_total += bytes.len();
@@ -707,7 +752,34 @@ impl Driver for SimDriver {
             }
 
             let runnable = Self::sorted_runnable(rt);
-            let acts = self.enabled();
+            let mut acts = self.enabled();
+            if !plan.ext_script.is_empty() && self.st.borrow().phase == Phase::Main {
+                // enumerated external events: starting and cancelling operations, the peer's acknowledgements
+                // and write back-pressure happen only as the letters say; delivery and the handshake stay
+                // with the ordinary choice
+                {
+                    let st = self.st.borrow();
+                    acts.retain(|(a, _)| match a {
+                        Act::AppGo(_) | Act::AppCancel(_) | Act::Stall(_) | Act::Unstall(_) | Act::Grant(_) | Act::Spurious(_) | Act::ClockStall => false,
+                        Act::PeerAck(c, _) => st.peers[*c].owed.front() == Some(&Owed::ConnAck),
+                        _ => true,
+                    });
+                }
+                let pos = self.st.borrow().ext_pos;
+                if pos < plan.ext_script.len() && runnable.is_empty() && acts.is_empty() {
+                    let mut k = pos;
+                    loop {
+                        self.exec_letter(plan.ext_script[k].act);
+                        k += 1;
+                        if k >= plan.ext_script.len() || !plan.ext_script[k].eager {
+                            break;
+                        }
+                    }
+                    self.st.borrow_mut().ext_pos = k;
+                    self.observe();
+                    continue;
+                }
+            }
 
             // A task that wakes itself for ever (observed: the connection dispatcher re-polls in a tight
             // loop while a protocol-control handler is busy and another control packet is buffered)
